@@ -229,8 +229,15 @@ func parseBody(r io.Reader) (uint64, [][]byte, []byte, error) {
 		klog.Infof("read sizeline: %v", err)
 		return 0, nil, nil, err
 	}
-	var size uint64
-	if n, err := fmt.Sscanf(string(sizeLine), "old %d", &size); err != nil || n != 1 {
+	// The size line must be exactly "old <decimal>": Sscanf would also accept trailing garbage ("old 5x"),
+	// extra fields, other bases ("old 0x10") and digit separators.
+	sizeStr, ok := strings.CutPrefix(string(sizeLine), "old ")
+	if !ok {
+		klog.Infof("scan sizeline: %q", sizeLine)
+		return 0, nil, nil, fmt.Errorf("invalid old size line %q", sizeLine)
+	}
+	size, err := strconv.ParseUint(sizeStr, 10, 64)
+	if err != nil {
 		klog.Infof("scan sizeline: %v", err)
 		return 0, nil, nil, err
 	}
